@@ -306,7 +306,7 @@ Section Docs.
   Qed.
 
   Lemma dm_mon_step s a cq : dm_rel s a ->
-    exists a', dm_mon c a (model_ev (dm_step c) (dm_answer c) s cq) = Some a'
+    exists a', mon_of (spec_unit (dm_spec c)) dm_chk (dm_cross c) a (model_ev (dm_step c) (dm_answer c) s cq) = Some a'
                /\ dm_rel (step_state (dm_step c) s (fst cq)) a'.
   Proof.
     apply (@unit_mon_step _ _ _ _ _ (dm_step c) (dm_answer c) (dm_spec c) dm_chk (dm_cross c) dm_rel).
